@@ -106,6 +106,7 @@ type Sim struct {
 	deadInst   map[int]bool
 	rewriting  map[int]bool // instance currently inside RewriteLog (engine.mut held)
 	writing    map[int]bool // instance whose write-commit mutex is held by some task
+	rawFiles   []verifhook.File // AOF files opened while no profile wrapper was installed
 	locks      map[any]*lockInfo
 	ParkLocks  map[string]bool // instrumented locks (by name) whose acquisitions are scheduling points in this run
 	Deadlock   string          // description of a lock cycle among parked tasks, once one was seen
@@ -231,6 +232,10 @@ func (s *Sim) uninstall() {
 	for _, d := range s.disks {
 		d.CloseAll()
 	}
+	for _, f := range s.rawFiles {
+		_ = f.Close()
+	}
+	s.rawFiles = nil
 	verifhook.Install(nil)
 	curSim.Store(nil)
 }
@@ -632,6 +637,11 @@ func (s *Sim) hookWrap(path string, f verifhook.File) verifhook.File {
 	if s.WrapFile != nil {
 		return s.WrapFile(path, f, t)
 	}
+	// not observed by this profile: still remembered, so that the descriptor is closed when the run ends
+	// (instances are killed, not shut down; thousands of runs per worker process would exhaust the descriptors)
+	s.mu.Lock()
+	s.rawFiles = append(s.rawFiles, f)
+	s.mu.Unlock()
 	return f
 }
 
